@@ -125,6 +125,7 @@ NextQuery ==
         slen \in (IF QHasSlen(st.f) THEN Sizes \cup {K + 1} ELSE {0}),
         ch \in (IF st.f \in ChrFns THEN {97, 65, 233, 0, 300} ELSE {0}),
         cnt \in (IF st.f = "wcsncmp_s" THEN {0, 1, K, HUGE} ELSE {0}),
+        srcknown \in (IF BosMode = 1 /\ TwoOp(st.f) THEN BOOLEAN ELSE {FALSE}),     \* the library knows the size of the source object (its true size)
         stale \in BOOLEAN :      \* stale: the room behind dest's terminator (inside dmax) holds characters the query looks for
        LET d == st.d
            s == IF snull THEN NULLP ELSE N - Len(sstr) - (IF sterm THEN 1 ELSE 0) + 1
@@ -133,8 +134,9 @@ NextQuery ==
            a0 == IF stale THEN [i \in 1..N |-> IF i > d + Len(dstr) /\ i <= d + dmax - 1 THEN fillv ELSE a00[i]] ELSE a00
            a == IF s # NULLP THEN Place(a0, s, sstr, sterm) ELSE a0
            c == [fn |-> st.f, w |-> QWidth(st.f), d |-> d, dmax |-> dmax, s |-> s, slen |-> slen, c |-> ch, n |-> cnt,
-                 dbos |-> dbos, sbos |-> UNK, flags |-> flags, pre |-> a, slack |-> 1]
-       IN /\ (d # NULLP => d + Len(dstr) + (IF dterm THEN 1 ELSE 0) <= (IF s = NULLP THEN N + 1 ELSE s))     \* operands do not overlap
+                 dbos |-> dbos, sbos |-> IF srcknown THEN N - s + 1 ELSE UNK, flags |-> flags, pre |-> a, slack |-> 1]      \* (the source object ends with the arena)
+       IN /\ (srcknown => (s # NULLP /\ flags = 0 /\ ~stale))
+          /\ (d # NULLP => d + Len(dstr) + (IF dterm THEN 1 ELSE 0) <= (IF s = NULLP THEN N + 1 ELSE s))     \* operands do not overlap
           /\ (d = NULLP => dstr = <<>> /\ ~dterm)
           /\ (stale => (d # NULLP /\ dterm /\ dmax # HUGE /\ dmax > Len(dstr) + 1 /\ flags = 0 /\ (s = NULLP \/ d + dmax - 1 < s)))
           /\ (d <= 2 \/ (~TwoOp(st.f) /\ ~dterm /\ d + Len(dstr) = N + 1)) /\ (s = NULLP \/ s <= N)   \* one-operand: also flush against the end
